@@ -76,15 +76,27 @@ pub fn run(park_index: usize, mode: &str) {
     let want_finalize = Arc::new(AtomicBool::new(false));
     let reader_dropped = Arc::new(AtomicBool::new(false));
 
+    let abort_mode = mode == "abort";
+    let aborted = Arc::new(AtomicBool::new(false));
+    if abort_mode {
+        std::panic::set_hook(Box::new(|_| {}));
+    }
     let mut ops: Assembler<X64Relocation> = Assembler::new().unwrap();
     let reader: Executor = ops.reader();
     // hook
     {
         let (out, counter, park, known_addr) = (out.clone(), counter.clone(), park.clone(), known_addr.clone());
+        let aborted = aborted.clone();
         dynasmrt::verif_hooks::set(Some(Box::new(move |name: &'static str| {
             let k = counter.fetch_add(1, Ordering::SeqCst);
             let line = format!("hook {} wx={} cur={}", name, any_wx() as u8, prot_of(known_addr.load(Ordering::SeqCst)));
             out.lock().unwrap().push(line);
+            if k == park_index && abort_mode {
+                // the assembling thread dies here: like a failing `expect` on an mprotect call or a panic in the user's alter closure
+                out.lock().unwrap().push("abort".into());
+                aborted.store(true, Ordering::SeqCst);
+                panic!("dynasm_verif: abort at {}", name);
+            }
             if k == park_index {
                 let mut st = park.state.lock().unwrap();
                 st.0 = true;
@@ -144,11 +156,28 @@ pub fn run(park_index: usize, mode: &str) {
         let mut st = park.state.lock().unwrap();
         loop {
             if st.0 { break true; }
-            if finished.load(Ordering::SeqCst) || want_finalize.load(Ordering::SeqCst) { break false; }
+            if finished.load(Ordering::SeqCst) || want_finalize.load(Ordering::SeqCst) || aborted.load(Ordering::SeqCst) { break false; }
             let (g, _) = park.cv.wait_timeout(st, Duration::from_millis(5)).unwrap();
             st = g;
         }
     };
+    if aborted.load(Ordering::SeqCst) {
+        // the assembling thread unwound (its Assembler is dropped with it); what does an executor that outlives it get?
+        let _ = asm_thread.join();
+        let r2 = reader.clone();
+        let (vs2, out2) = (vs.clone(), out.clone());
+        let res = std::panic::catch_unwind(std::panic::AssertUnwindSafe(move || {
+            let g = r2.lock();
+            let addr = if g.len() > 0 { g.ptr(AssemblyOffset(0)) as usize } else { 0 };
+            out2.lock().unwrap().push(format!("rlock granted ver={} prot={} len={}", version_of(&g, &vs2), prot_of(addr), g.len()));
+            out2.lock().unwrap().push("runlock".into());
+        }));
+        if res.is_err() { emit("rlock poisoned".into()); }
+        let lines = out.lock().unwrap().clone();
+        for l in lines { println!("{}", l); }
+        println!("end");
+        return;
+    }
     let resume = |park: &Arc<Park>| { let mut st = park.state.lock().unwrap(); st.1 = true; park.cv.notify_all(); };
     if parked && mode != "none" {
         // reader thread; it writes its own event lines so that their order is the order of the events
@@ -214,6 +243,8 @@ pub fn run(park_index: usize, mode: &str) {
     let mut done = false;
     for _ in 0..2000 {
         if rx.recv_timeout(Duration::from_millis(5)).is_ok() { done = true; break; }
+        // abort mode, point reached only inside the final finalize: the thread is gone and no executor is left to look
+        if aborted.load(Ordering::SeqCst) { done = true; break; }
         let parked_now = { let st = park.state.lock().unwrap(); st.0 && !st.1 };
         if parked_now { resume(&park); }
     }
